@@ -8,13 +8,14 @@
 (* blanks (a terminal cannot tell a blank from nothing); inside a border rows are framed and keep their width.    *)
 (*   g = [w, h, wide, zero]      terminal size; the sets of cells that are two columns wide / zero columns wide   *)
 (*   c = [layout, info, sep, header, hlines, headerFirst, inputless, prompt, pointer, marker, ellipsis,           *)
-(*        hscroll, hscrollOff, keepRight, scrollbar, border]                                                       *)
+(*        hscroll, hscrollOff, keepRight, scrollbar, border, tabstop]                                              *)
 (*        layout in {"default","reverse","reverse-list"}; info in {"default","inline","hidden","right",           *)
 (*        "inline-right"}; sep: a separator is drawn (FALSE = --no-separator); header: the lines of --header;     *)
 (*        hlines: the --header-lines=N rows: the first N input records (CODE-DERIVED: N rows stay reserved, blank, *)
 (*        when the input has fewer records); prompt/pointer/marker/ellipsis: texts; inputless: --no-input given;  *)
 (*        hscroll (FALSE = --no-hscroll), hscrollOff (--hscroll-off, default 10), keepRight (--keep-right);       *)
-(*        scrollbar: the scrollbar character as a text (<<>> = --no-scrollbar); border: --border (a box)          *)
+(*        scrollbar: the scrollbar character as a text (<<>> = --no-scrollbar); border: --border (a box);         *)
+(*        tabstop: --tabstop (default 8): the distance of the tab stops a TAB character in a line advances to     *)
 (*   s = [input, cx, xoffset, list, texts, sel, multi, cy, offset, count, track, showHeader, hideInput, pattern]  *)
 (*        list: result ids in rank order, texts[i] the line of list[i]; sel: selected ids; multi: limit (0 = off) *)
 (*        cy: index of the current result; offset: index of the first displayed result; count: items loaded       *)
@@ -94,6 +95,54 @@ PadTo(t, n, g) == t \o Spaces(n - TW(t, g))                             \* t fol
 SetMax(S) == CHOOSE x \in S : \A y \in S : y <= x
 
 -------------------------------------------------------------------------------
+(* TAB characters in lines.  The cell "TAB" stands for the character U+0009 of a line (no other cell has more     *)
+(* than one character, so it cannot be mistaken); a terminal has no TAB cells: what is drawn are blanks.          *)
+(* DOCUMENTED (man fzf): --tabstop=SPACES "Number of spaces for a tab character (default: 8)" - i.e. tab stops    *)
+(*   every SPACES columns: a TAB is drawn as the blanks up to the next tab stop.                                   *)
+(* CODE-DERIVED (util.RunesWidth, Terminal.processTabs): the tab stops are counted from the START OF THE LINE'S    *)
+(*   TEXT (column 0 = its first cell, wherever pointer / marker / border put it on the screen), a TAB that sits    *)
+(*   on a stop advances a whole tabstop (never zero blanks), the columns of the cells before it are their display  *)
+(*   widths; and - the point of this section - NOTHING ELSE matters: not which cells are highlighted (query),      *)
+(*   not how the text is coloured (--ansi).  The drawn row of a line with TABs is a function of (line, tabstop,    *)
+(*   room) alone.  When a line is cut, a TAB is kept or dropped as a whole (trimRight cuts between characters).    *)
+Tab == "TAB"
+HasTab(t) == \E i \in 1..Len(t) : t[i] = Tab
+TabW(col, ts) == ts - (col % ts)                                        \* blanks drawn for a TAB that starts in column col
+CWAt(cell, col, ts, g) == IF cell = Tab THEN TabW(col, ts) ELSE CW(cell, g)
+RECURSIVE ExpandFrom(_, _, _, _, _)
+ExpandFrom(t, i, col, ts, g) ==                                         \* the cells drawn for t[i..], t[i] starting in column col
+    IF i > Len(t) THEN <<>>
+    ELSE IF t[i] = Tab THEN Spaces(TabW(col, ts)) \o ExpandFrom(t, i + 1, col + TabW(col, ts), ts, g)
+    ELSE <<t[i]>> \o ExpandFrom(t, i + 1, col + CW(t[i], g), ts, g)
+ExpandAt(t, col0, ts, g) == IF HasTab(t) THEN ExpandFrom(t, 1, col0, ts, g) ELSE t
+ExpandT(t, ts, g) == ExpandAt(t, 0, ts, g)                              \* what is drawn for the text t
+RECURSIVE EndCol(_, _, _, _, _)
+EndCol(t, i, col, ts, g) == IF i > Len(t) THEN col ELSE EndCol(t, i + 1, col + CWAt(t[i], col, ts, g), ts, g)
+TWAt(t, col0, ts, g) == IF HasTab(t) THEN EndCol(t, 1, col0, ts, g) - col0 ELSE TW(t, g)   \* columns t takes when it starts in column col0
+TWT(t, ts, g) == TWAt(t, 0, ts, g)                                      \* display width of a text with TABs (= TW(ExpandT(t)), MC_Screen)
+(* the longest prefix that is at most lim columns wide; a TAB is never split *)
+RECURSIVE CutAtT(_, _, _, _, _, _)
+CutAtT(t, i, col, lim, ts, g) == IF i > Len(t) THEN Len(t)
+                                 ELSE IF col + CWAt(t[i], col, ts, g) > lim THEN i - 1
+                                 ELSE CutAtT(t, i + 1, col + CWAt(t[i], col, ts, g), lim, ts, g)
+TakeWT(t, lim, ts, g) == IF ~HasTab(t) THEN TakeW(t, lim, g)
+                         ELSE IF lim < 0 THEN <<>> ELSE Sub(t, 1, CutAtT(t, 1, 0, lim, ts, g))
+TakeWTDecl(t, lim, ts, g) ==
+    LET I == {k \in 0..Len(t) : TW(ExpandT(Sub(t, 1, k), ts, g), g) <= lim}
+    IN IF I = {} THEN <<>> ELSE Sub(t, 1, CHOOSE k \in I : \A j \in I : j <= k)
+(* trimLeft on a text with TABs, CODE-DERIVED: at least one cell is dropped in front (the caller has found the text *)
+(* too wide), then cells are dropped until what remains is at most lim columns wide WHEN IT STARTS IN COLUMN pre:   *)
+(* it will be drawn behind the leading ellipsis, so pre should be the width of that ellipsis.                        *)
+RECURSIVE DropUntilFits(_, _, _, _, _, _)
+DropUntilFits(t, k, lim, pre, ts, g) == IF k > Len(t) THEN <<>>
+                                        ELSE IF TWAt(Sub(t, k, Len(t)), pre, ts, g) <= lim THEN Sub(t, k, Len(t))
+                                        ELSE DropUntilFits(t, k + 1, lim, pre, ts, g)
+TakeRightWT(t, lim, pre, ts, g) == IF ~HasTab(t) THEN TakeRightW(t, lim, g)
+                                   ELSE IF lim < 0 THEN <<>>
+                                   ELSE IF TWT(t, ts, g) <= lim THEN t
+                                   ELSE DropUntilFits(t, 2, lim, pre, ts, g)
+
+-------
 (* Sections that are shown / hidden during a session.                                                             *)
 (* DOCUMENTED (man fzf, AVAILABLE ACTIONS): toggle-header, show-header, hide-header, toggle-input, show-input,     *)
 (* hide-input.  The header section is --header and --header-lines together; the input section is the prompt and   *)
@@ -146,7 +195,7 @@ TermDetermined(t, term) ==
     /\ \A i \in 1..Len(term) : term[i] \in PlainCells /\ Cardinality(Hits(t, term, i)) = 1
     /\ \A i \in 1..(Len(term) - 1) : SetMax(Hits(t, term, i)) < SetMax(Hits(t, term, i + 1))
 Determined(t, p, g) ==
-    /\ \A j \in 1..Len(t) : t[j] \in AsciiCells \/ t[j] \in g.wide
+    /\ \A j \in 1..Len(t) : t[j] \in AsciiCells \/ t[j] \in g.wide \/ t[j] = "TAB"
     /\ \A k \in 1..Len(Terms(p)) : TermDetermined(t, Terms(p)[k])
 (* index of the last matched cell (0: no pattern); meaningful where Determined *)
 TermEnd(t, term) == LET H == Hits(t, term, Len(term)) IN IF H = {} THEN 0 ELSE SetMax(H)
@@ -250,6 +299,29 @@ Window(t, me0, nopat, room, c, g) ==
                      t2 == IF cutR THEN Sub(t, 1, me) \o el ELSE t
                  IN el \o TakeRightW(t2, lim, g)
 
+(* The same for a line with TABs: the rule is applied to the EXPANDED text - the line fits iff its expansion fits, *)
+(* and what is drawn is the expansion of the part that is kept.  CODE-DERIVED: the cut falls between characters     *)
+(* (a TAB is kept or dropped whole); a part that is cut in front (horizontal scrolling) is expanded anew: its tab   *)
+(* stops are counted from the start of what is displayed, the leading ellipsis included, and it is cut so that it   *)
+(* fits there (TakeRightWT with pre = the width of the ellipsis).  pre2: the NAMED DEVIATION below (pre = 2).        *)
+WindowTP(t, me0, nopat, room, c, g, pre2) ==
+    IF ~HasTab(t) THEN Window(t, me0, nopat, room, c, g)
+    ELSE IF room <= 0 THEN <<>>
+    ELSE IF TWT(t, c.tabstop, g) <= room THEN ExpandT(t, c.tabstop, g)
+    ELSE LET ts == c.tabstop
+             el == TakeW(c.ellipsis, room \div 2, g)
+             ew == TW(el, g)
+             pre == IF pre2 THEN 2 ELSE ew
+             lim == room - ew
+             me == Constrain(me0 + Min2(room \div 2 - ew, c.hscrollOff), 0, Len(t))
+         IN IF ~c.hscroll THEN ExpandT(TakeWT(t, lim, ts, g), ts, g) \o el
+            ELSE IF c.keepRight /\ nopat THEN ExpandT(el \o TakeRightWT(t, lim, pre, ts, g), ts, g)
+            ELSE IF TWT(Sub(t, 1, me), ts, g) <= lim THEN ExpandT(TakeWT(t, lim, ts, g), ts, g) \o el
+            ELSE LET cutR == TWT(Sub(t, me + 1, Len(t)), ts, g) > ew
+                     t2 == IF cutR THEN Sub(t, 1, me) \o el ELSE t
+                 IN ExpandT(el \o TakeRightWT(t2, lim, pre, ts, g), ts, g)
+WindowT(t, me0, nopat, room, c, g) == WindowTP(t, me0, nopat, room, c, g, FALSE)
+
 (* The scrollbar (getScrollbar, printBar).  DOCUMENTED: a scrollbar is displayed unless --no-scrollbar; CODE-DERIVED: *)
 (* it occupies the reserved column of `len` consecutive list rows starting `start` rows from the first one, and     *)
 (* only when there are more results than list rows.                                                                  *)
@@ -262,15 +334,16 @@ Bar(s, g, c) ==
 BarOn(k, s, g, c) == c.scrollbar # <<>> /\ k >= Bar(s, g, c)[2] /\ k < Bar(s, g, c)[2] + Bar(s, g, c)[1]
 
 Selected(id, s) == \E i \in 1..Len(s.sel) : s.sel[i] = id
-ItemRow(k, s, g, c) ==
+ItemRowP(k, s, g, c, pre2) ==                               \* pre2: see WindowTP (FALSE in Render)
     LET i == s.offset + k + 1 IN
     IF i > N(s) THEN <<>>
     ELSE LET row == (IF s.offset + k = s.cy THEN c.pointer ELSE Spaces(PLen(c, g)))
                     \o (IF Selected(s.list[i], s) THEN c.marker ELSE Spaces(MLen(c, g)))
-                    \o Window(s.texts[i], MatchEnd(s.texts[i], s.pattern), s.pattern = <<>>, TextRoom(g, c), c, g)
+                    \o WindowTP(s.texts[i], MatchEnd(s.texts[i], s.pattern), s.pattern = <<>>, TextRoom(g, c), c, g, pre2)
          IN IF BarOn(k, s, g, c) THEN PadTo(row, g.w - 1, g) \o c.scrollbar ELSE row
+ItemRow(k, s, g, c) == ItemRowP(k, s, g, c, FALSE)
 (* header lines are never matched: they are displayed like lines without a pattern *)
-HeaderRow(t, g, c) == Spaces(Indent(c, g)) \o Window(t, 0, TRUE, TextRoom(g, c), c, g)
+HeaderRow(t, g, c) == Spaces(Indent(c, g)) \o WindowT(t, 0, TRUE, TextRoom(g, c), c, g)
 
 (* CODE-DERIVED: exact text of the finder info (printInfoImpl); DOCUMENTED: it shows matched/total and the        *)
 (* number of selected lines (with the limit when --multi has one) *)
@@ -340,8 +413,8 @@ SlotRow(sl, s, g, c) ==
 RenderArea(s, g, c) == [r \in 1..g.h |-> RTrim(SlotRow(SlotAt(r - 1, g, c), s, g, c))]
 (* --border: the area framed by a box (--no-unicode: + - |), rows padded to the width of the area *)
 FrameEdge(g) == <<"+">> \o Rep("-", g.w - 2) \o <<"+">>
-Frame(area, g) == [r \in 1..g.h |-> IF r = 1 \/ r = g.h THEN FrameEdge(g)
-                                    ELSE <<"|", " ">> \o PadTo(area[r - 1], g.w - 3, g) \o <<"|">>]
+FrameRow(x, g) == <<"|", " ">> \o PadTo(x, g.w - 3, g) \o <<"|">>
+Frame(area, g) == [r \in 1..g.h |-> IF r = 1 \/ r = g.h THEN FrameEdge(g) ELSE FrameRow(area[r - 1], g)]
 (* THE SCREEN: g = the terminal, c = the configuration given on the command line, s = the current state *)
 Render(s, g, c) == IF c.border THEN Frame(RenderArea(s, Inner(g, c), Eff(s, c)), g)
                    ELSE RenderArea(s, g, Eff(s, c))
@@ -372,13 +445,29 @@ InlineInfo(c) == c.info \in {"inline", "inline-right"}
 ShowsPart(row, q, g, c) ==
     LET p == PromptPart(c, g) IN
     row = RTrim(p \o q) \/ (InlineInfo(c) /\ IsPrefix(p \o q \o <<" ">>, row))        \* the info may follow
-(* xoffset > 0: an earlier query was longer than the line; the prompt may then stay scrolled horizontally         *)
-(* (CODE-DERIVED: updatePromptOffset keeps its offset within [0, cx/2] once it has become positive)                *)
+(* A query that is wider than the prompt area (PromptRoom: what the prompt leaves of the line, less the last      *)
+(* column) is shown in part.  CODE-DERIVED (updatePromptOffset, printPrompt): what is shown is before \o after,      *)
+(*   before = the longest tail of input[xoffset+1 .. cx] that is at most PromptRoom COLUMNS wide (wide characters    *)
+(*            count two), after = the longest head of input[cx+1 ..] within the columns `before` leaves;              *)
+(*   the scroll offset is kept from one rendition to the next, constrained to [mn, mn + (room - max(0, room-cx))/2]   *)
+(*   with mn = the least offset for which before needs no cut (PromptOffset); beginning-of-line resets it to 0;      *)
+(*   NO ELLIPSIS is drawn on this line.                                                                               *)
+(* CLAIMED of every rendition (the documented part: the line shows the query; the rest follows from "the screen is  *)
+(* the state" and "never wider than the window"): the characters shown are a contiguous part input[i..j] of the     *)
+(* query that contains the cursor position (i - 1 <= cx <= j) - a real part, not a token one -, at most PromptRoom  *)
+(* columns wide, so that the cursor column lies inside the area and the last column (inside --border: the column    *)
+(* next to the frame) stays free; it is cut behind only where the next character has no room.                        *)
+(* xoffset > 0 with a query that fits: an earlier query was longer than the line; the prompt may then stay scrolled  *)
+(* horizontally (CODE-DERIVED: updatePromptOffset keeps its offset within [0, cx/2] once it has become positive)     *)
+CursorCol(i, s, g, c) == TW(c.prompt, g) + TW(Sub(s.input, i, s.cx), g)      \* 0-based column of the cursor when input[i] is the first character shown
 ShowsQuery(row, s, g, c) ==
     IF QueryFits(s, g, c) /\ s.xoffset = 0 THEN ShowsPart(row, s.input, g, c)
     ELSE \E i \in 1..(Len(s.input) + 1) : \E j \in (i - 1)..Len(s.input) :
             /\ i - 1 <= s.cx /\ s.cx <= j
             /\ 2 * (j - i + 1) >= Min2(Len(s.input), (PromptRoom(g, c) - 3) \div 2)    \* a real part, not a token one
+            /\ TW(Sub(s.input, i, j), g) <= PromptRoom(g, c)                           \* in display columns
+            /\ CursorCol(i, s, g, c) < g.w
+            /\ (j < Len(s.input) => TW(Sub(s.input, i, j + 1), g) > PromptRoom(g, c))
             /\ ShowsPart(row, Sub(s.input, i, j), g, c)
 ClaimPrompt(rows, s, g, c) == \A r \in RowsOf("prompt", g, c) : ShowsQuery(rows[r], s, g, c)
 
@@ -400,8 +489,9 @@ ClaimInfo(rows, s, g, c) ==
 (*   must > 0: the cell t[must] (the last matched one) is part of what is shown, with `ctx` cells after it (or    *)
 (*   up to the end of the line);  tail: the end of the line is shown (--keep-right without a pattern)             *)
 ShowsLine(body, t, must, ctx, tail, room, c, g) ==
-    \/ TW(t, g) <= room /\ body = RTrim(t)
-    \/ /\ TW(t, g) > room                                              \* does not fit beside the reserved column
+    LET ts == c.tabstop IN                                              \* (TABs: the line's width is that of its expansion)
+    \/ TWT(t, ts, g) <= room /\ body = RTrim(ExpandT(t, ts, g))
+    \/ /\ TWT(t, ts, g) > room                                          \* does not fit beside the reserved column
        /\ TW(body, g) <= room
        /\ \E i \in 1..(Len(t) + 1) :
             LET lead == IF i > 1 THEN c.ellipsis ELSE <<>> IN
@@ -409,15 +499,16 @@ ShowsLine(body, t, must, ctx, tail, room, c, g) ==
             /\ (must > 0 => i <= must)
             /\ IsPrefix(RTrim(lead), body)
             /\ (i <= Len(t) /\ Len(body) > Len(lead) /\ lead = RTrim(lead) =>          \* (a cheap filter on i, implied by the next conjunct)
-                   body[Len(lead) + 1] = t[i] \/ (c.ellipsis # <<>> /\ body[Len(lead) + 1] = c.ellipsis[1]))
+                   body[Len(lead) + 1] = t[i] \/ t[i] = Tab \/ (c.ellipsis # <<>> /\ body[Len(lead) + 1] = c.ellipsis[1]))
             /\ \E j \in (i - 1)..Min2(Len(t), i + room + Cardinality({k \in 1..Len(t) : t[k] \in g.zero})) :
-                 LET shown == lead \o Sub(t, i, j) \o (IF j < Len(t) THEN c.ellipsis ELSE <<>>) IN
+                 \* TABs: cut behind only (i = 1), the tab stops are those of the line; cut in front: CODE-DERIVED, see WindowT
+                 LET shown == ExpandT(lead \o Sub(t, i, j) \o (IF j < Len(t) THEN c.ellipsis ELSE <<>>), ts, g) IN
                  /\ (i > 1 \/ j < Len(t))
                  /\ body = RTrim(shown) /\ TW(shown, g) <= room
                  /\ (must > 0 => j >= Min2(Len(t), must + ctx))
                  /\ (tail => j = Len(t))
 (* what the documentation promises about the part shown of s.texts[i] *)
-Narrow(t, g) == \A j \in 1..Len(t) : CW(t[j], g) = 1
+Narrow(t, g) == \A j \in 1..Len(t) : CW(t[j], g) = 1 /\ t[j] # Tab
 MustShow(t, s, room, c, g) ==
     IF c.hscroll /\ s.pattern # <<>> /\ Determined(t, s.pattern, g) /\ Narrow(t, g) /\ TW(c.ellipsis, g) < room \div 2
     THEN MatchEnd(t, s.pattern) ELSE 0
@@ -602,6 +693,39 @@ MissingHeaderRows(g, c, missing) ==
     {r \in 1..g.h : LET sl == SlotAt(r - 1, g, c) IN
         \/ sl.kind = "hline" /\ sl.ix > Len(c.hlines) - missing
         \/ sl.kind = "header" /\ ~Split(c) /\ sl.ix > Len(c.header) + Len(c.hlines) - missing}
+
+(* NAMED DEVIATION (finding "tab-stops-assume-two-column-ellipsis", src/terminal.go trimLeft / printHighlighted).    *)
+(* When horizontal scrolling cuts a line in front, trimLeft measures what it keeps with the tab stops of a text that  *)
+(* starts in column 2 (`displayWidthWithLimit(runes, 2, width)`: the width of the DEFAULT ellipsis), but the text is   *)
+(* then drawn behind the ellipsis that is configured.  With --ellipsis of another width (none, one column such as the  *)
+(* popular single-character ellipsis, three dots) the TABs of the drawn text fall on other stops than the measured    *)
+(* ones and the row comes out narrower - or WIDER, by up to 2 columns for a narrower ellipsis and up to tabstop - 1    *)
+(* columns for a wider one: the text runs into the reserved column and over the edge of the window (inside --border:   *)
+(* over the frame), the end of the line is lost without an ellipsis, --keep-right no longer shows the right end.       *)
+(* The screen then is the exact rendition except on the list rows of lines with TABs that are cut in front: such a    *)
+(* row is the pre = 2 rendition (WindowTP), complete if that has room and otherwise at least as much of it as the      *)
+(* list window has columns for.  MC_Screen (MC_Screen_dev_tabpre.cfg) exhibits the overflow as a counterexample to     *)
+(* InvTabPre2Room.  Not part of Render; the judge names it.  open: rows the specification leaves open.                 *)
+EllipsisW(g, c) == TW(TakeW(c.ellipsis, TextRoom(g, c) \div 2, g), g)
+DevTabStopsApplies(s, g, c0) ==
+    LET gi == Inner(g, c0) ce == Eff(s, c0) IN
+    ce.hscroll /\ EllipsisW(gi, ce) # 2 /\ \E i \in 1..N(s) : HasTab(s.texts[i]) /\ TWT(s.texts[i], ce.tabstop, gi) > TextRoom(gi, ce)
+DevTabStops(rows, s, g, c0, open) ==
+    LET gi == Inner(g, c0)
+        ce == Eff(s, c0)
+        d == IF c0.border THEN 1 ELSE 0
+        R == Render(s, g, c0)
+    IN /\ DevTabStopsApplies(s, g, c0) /\ Len(rows) = g.h
+       /\ \A r \in 1..g.h :
+            \/ rows[r] = R[r] \/ r \in open
+            \/ /\ r - d \in 1..gi.h /\ SlotAt(r - d - 1, gi, ce).kind = "item"
+               /\ LET k == SlotAt(r - d - 1, gi, ce).ix
+                      i == s.offset + k + 1
+                  IN /\ i <= N(s) /\ HasTab(s.texts[i]) /\ TWT(s.texts[i], ce.tabstop, gi) > TextRoom(gi, ce)
+                     /\ LET dev == ItemRowP(k, s, gi, ce, TRUE) IN
+                        IF TW(dev, gi) <= gi.w - 1
+                        THEN rows[r] = (IF c0.border THEN FrameRow(RTrim(dev), g) ELSE RTrim(dev))
+                        ELSE IsPrefix((IF c0.border THEN <<"|", " ">> ELSE <<>>) \o TakeW(dev, gi.w - 1, gi), rows[r])
 
 -------------------------------------------------------------------------------
 (* Properties of the placement (checked by MC_Screen on all small geometries and configurations) *)
